@@ -41,8 +41,36 @@ def needs_join_search(prog) -> bool:
     return False
 
 
+def _long_flat(d):
+    """routine 0: n structures in a row (empty ifs, ifs with one operation, break-only switches - the shapes the
+    decompiler structures without its join search); routine 1: a short routine with structures of its own"""
+    n, kinds = d["n"], d["kinds"]
+    cnt = [0]
+
+    def op():
+        cnt[0] += 1
+        return {"k": "op", "name": f"lf_{cnt[0]}", "args": [], "ctx": None}
+
+    def block(i, k):
+        cond = {"c": "op", "l": {"t": "const", "v": f"$L_{i % 9}"}, "op": "==", "r": {"t": "int", "v": i % 100}, "value_of": False}
+        if k == "switch":
+            return {"k": "switch", "head": {"h": "var", "v": {"t": "const", "v": f"$L_{i % 9}"}}, "cases": [{"default": False, "head": {"ch": "val", "v": {"t": "int", "v": i % 100}}, "body": [{"k": "ctl", "v": "break"}]}]}
+        return {"k": "if", "not": False, "conds": [cond], "body": [], "elifs": [], "else": None}
+
+    body0 = [op()] + [block(i, kinds[i % len(kinds)]) for i in range(n)] + [op(), {"k": "ctl", "v": "end"}]
+    body1 = [op(), block(n, "if"), op(), {"k": "with", "type": "actor", "val": {"t": "int", "v": 3}, "stmt": op()}, block(n + 1, kinds[0]), op(), {"k": "ctl", "v": "hold"}]
+    mk = lambda i, b: {"kind": "def", "id": i, "name": None, "target": None, "alias": False, "body": b}  # noqa
+    return {"imports": [], "macros": [], "routines": [mk(0, body0), mk(1, body1)]}
+
+
 def strategy(tier):
-    return st.fixed_dictionaries({"prog": gen_prog.programs(flat=True, max_stmts=30), "gaps": st.lists(st.integers(0, 3), min_size=1, max_size=4)})
+    from vf.core import weighted
+
+    usual = st.fixed_dictionaries({"prog": gen_prog.programs(flat=True, max_stmts=30), "gaps": st.lists(st.integers(0, 3), min_size=1, max_size=4)})
+    # sizes: one case in 400 is a routine with 200-1400 structures in a row, followed by a short second routine
+    long_flat = st.fixed_dictionaries({"long_flat": st.fixed_dictionaries({"n": st.integers(200, 1400), "kinds": st.lists(st.sampled_from(["if", "if", "switch"]), min_size=1, max_size=3)}),
+                                       "gaps": st.lists(st.integers(0, 1), min_size=1, max_size=2)})
+    return weighted((399, usual), (1, long_flat))
 
 
 def op_names(prog):
@@ -119,6 +147,9 @@ def normalise_flat(prog):
 
 def evaluate(case, stt):
     fails = []
+    if "long_flat" in case:
+        stt.count("long_flat")
+        case = dict(case, prog=_long_flat(case["long_flat"]))
     prog = normalise_flat(case["prog"])
     if not gen_prog.is_flat(prog):
         stt.count("discard_not_flat")
@@ -183,6 +214,12 @@ def evaluate(case, stt):
 
 
 def shrink_candidates(case):
+    if "long_flat" in case:
+        d = case["long_flat"]
+        for n in (d["n"] // 2, d["n"] - 100, d["n"] - 10, d["n"] - 1):
+            if 1 <= n < d["n"]:
+                yield dict(case, long_flat=dict(d, n=n))
+        return
     for p in gen_prog.shrink_candidates(case["prog"]):
         if gen_prog.is_flat(p):
             yield dict(case, prog=p)
